@@ -313,8 +313,22 @@ class Gen:
         return tuple(res)
 
 
+def render(ins, outs, form):
+    """Print a structured operation in one of the documented forms."""
+    from .desc import unbracket
+
+    if form == "implicit-output":
+        return show_op(ins)
+    if form == "implicit-brackets":
+        return show_op([unbracket(e) for e in ins], outs)
+    return show_op(ins, outs)
+
+
 def _case(op, family, desc, ins, outs, kwargs, opts=None, kinds=None, tags=()):
+    form = "implicit-output" if "implicit-output" in tags else "implicit-brackets" if "implicit-brackets" in tags else "explicit"
+    assert render(ins, outs, form) == desc, (desc, render(ins, outs, form))
     return {
+        "form": form,
         "op": op,
         "family": family,
         "desc": desc,
